@@ -186,9 +186,11 @@ CLAIMED = {
              "formatter and the second pass must change nothing; `garden format --check` must accept formatter output (CLI "
              "sample). Proved in Lean: applying no span edits is the identity; the final-newline phase is idempotent. The "
              "exact phase models are compared with the real intermediate texts of every run.",
-        note=TB + "Whether the edit collectors emit no edits on formatted text is not modelled; it is decided per input. Known "
-             "findings (real non-idempotence): second-pass indentation of a closing parenthesis line, stale line numbers "
-             "after joined lines, CR handling.",
+        note=TB + "Whether the edit collectors emit no edits on formatted text is not modelled; it is decided per input. Five "
+             "real non-idempotence defects on parseable programs were found and fixed in /repo (indent decided from a token "
+             "column, `=` joined after line edits, wrap only after spacing, …: known_findings.json `fixed`). Remaining known "
+             "findings are confined to texts with parse errors (edits computed from the recovery AST) and to lines ending "
+             "in several CR characters.",
         design="§7 C18"),
     "C24": dict(
         category="proof",
@@ -291,19 +293,32 @@ CLAIMED = {
         design="§7 C05"),
     "C16": dict(
         category="proof",
-        technique="Lean 4 partial soundness proof (progress+preservation for a big-step semantics with runtime type errors) over a transcription of the checker's rules + check/run correspondence on type-directed programs and mutants",
-        text="Proved: a value of type A is a value of every well-formed supertype (value_subsumption, uses C14); a well-typed value "
-             "always passes the runtime annotation check is_subtype(Type::from_value(v), T) (annotation_check_passes); canonical "
-             "forms; and soundness for the straight-line fragment (literals, variables, parentheses, all binary operators, let "
-             "with and without hints, return, blocks): a program the model checker accepts never ends in a type error, for "
-             "every fuel (check_sound_exprs_partial, check_sound_toplevel_partial). For if/else, loops, calls, assignment, match "
-             "and lists ~1k fully annotated generated programs and single-node mutants per quick run are judged by the real "
-             "`check` and the real `run`: an accepted program must not raise a type-error message; the model checker's verdict "
-             "and the model semantics' outcome class must agree with the real ones.",
-        note=TB + "PARTIAL: the full fragment theorem is not proved. Three genuine checker unsoundness defects were found; two are "
-             "fixed in /repo (toplevel let visible in function bodies; match on a non-enum scrutinee), one is a known finding "
-             "(Any from a checked if/else flowing into match). Generics, untyped closures, structs and namespaces are outside "
-             "the fragment.",
+        technique="Lean 4 soundness proof (progress+preservation packaged for a fuel-indexed big-step semantics with runtime type errors as outcomes, induction on fuel with a program-wide well-typedness invariant) over a transcription of the checker's rules + check/run correspondence on type-directed programs and single-node mutants",
+        text="Proved (check_sound_fragment, no extra hypotheses): if a program of the fully annotated, monomorphic, first-order core "
+             "fragment (Check.fullyAnnotated, decidable) is accepted by the model checker (Check.check P = []: the bidirectional "
+             "checker incl. check_match / exhaustiveness / infer_call, and check_loops), then for EVERY fuel its run under the "
+             "typed reference semantics never ends in a type error (wrong operand/argument type, wrong arity, calling a "
+             "non-function, unknown variable, failed parameter/let/return annotation check, no matching case, non-enum "
+             "scrutinee). The fragment: literals, variables, all binary operators, let with/without hints, assignment, +=/-=, "
+             "if/else, while, for over lists, match on Option/Bool/Unit with `_` and exhaustiveness, return, break/continue, list "
+             "and tuple literals, calls of annotated named functions incl. recursion, Some/println/print/string_repr. "
+             "check_sound_exprs is the block-level statement (value of the inferred/expected type in a typed environment, or a "
+             "return of the return type, or break/continue inside a loop, or a non-type error). Pillars: value_subsumption "
+             "(uses C14), annotation_check_passes (a well-typed value passes is_subtype(Type::from_value(v), T)), canonical forms; "
+             "checker-only lemmas Check.tc_inv (checking leaves outer bindings unchanged), Check.tc_gi (inferred types contain no "
+             "Error/Any), Check.hasTy_unify (uses C15). example_never_type_error instantiates the theorem on a program with "
+             "recursion, loops, match and calls. Tie: ~700 fully annotated generated programs and single-node mutants (21 kinds) "
+             "per quick run are judged by the real `check` and the real `run`: an accepted program must not raise a type-error "
+             "message; the model checker's verdict and the model semantics' outcome class must agree with the real ones for every "
+             "program (inside the fragment or not).",
+        note=TB + "Syntactic exclusions of the fragment: `let` only as a block statement; a `for` iterable is a variable, a call or "
+             "a parenthesised expression (for a bare list literal / if / match there the real checker checks against List<Any> and "
+             "computes lossy types: known findings C16/any-from-checked-if and C16/error-from-checked-list, proposed fix "
+             "patches/checker-fix-for-iterable-inferred.diff); a `_` case binds no payload; no function values (first order). "
+             "Match on Result and user enums, generics, closures, structs, methods and namespaces are outside the model. Five genuine "
+             "checker unsoundness defects were found while building the proof; three are fixed in /repo (6eb3c77 toplevel let "
+             "visible in function bodies; 0684deb match on a non-enum scrutinee; 821dcf8 Error-typed payload of a NoValue "
+             "scrutinee), two are the known findings above.",
         design="§7 C16"),
     "C25": dict(
         category="proof",
@@ -322,28 +337,43 @@ CLAIMED = {
 
     "C19": dict(
         category="translation_validation",
-        technique="per-input validation by a Lean decision procedure (alphaCheck, proved sound for the alpha-renaming relation) on the real parser's trees + Lean proof that alpha-renaming preserves behaviour + run-before/after oracle",
+        technique="per-input validation by a Lean decision procedure (alphaCheck, proved sound for the alpha-renaming relation) on the real parser's trees + Lean proof that alpha-renaming preserves behaviour (closures included, via a value relation) + run-before/after oracle",
         text="Every rename performed by the real tool on generated programs (~2.7k renames per quick run: every binder kind, "
-             "shadowing, sibling scopes, closures, a same-named unrelated occurrence in 60% of cases) is judged by the Lean "
-             "checker alphaCheck on the (before, after) trees from the real parser. Proved once for all programs: alphaCheck is "
-             "sound for the relation IsAlphaRename; IsAlphaRename to a fresh name preserves the result, the store and the printed "
-             "output of the reference semantics RefSem for every fuel (closure-free fragment: alpha_sound_partial); the exact model "
+             "shadowing, sibling scopes, closures capturing the renamed variable, a same-named unrelated occurrence in 60% of "
+             "cases) is judged by the Lean checker alphaCheck on the (before, after) trees from the real parser. Proved once for "
+             "all programs and every fuel: alphaCheck is sound for the relation IsAlphaRename (alphaCheck_sound); IsAlphaRename to "
+             "a fresh name preserves how the run ends and what it prints under the FULL reference semantics RefSem, closures "
+             "included (alpha_sound, no closure-free hypothesis), as a corollary of alpha_sound_related: results and stores of "
+             "the two runs are related by the value relation VRel (equal except that closure values carry the renamed "
+             "parameters / body and captured-environment keys; VRel-related values display and compare equally, so the output "
+             "is equal); for closure-free evaluation the two runs are equal (alpha_sound_exact_closure_free); the exact model "
              "of apply_renames replaces exactly the listed tokens (apply_renames_spec). Oracle: `garden run` before/after, an "
              "independent Python resolver, LSP rename edits vs the CLI.",
-        note=TB + "The closure case of alpha_sound is not proved (needs a value/store relation); programs with closures are "
-             "covered by the relation and the oracle only. RefSem is compared with the real evaluator on every generated program.",
+        note=TB + "RefSem is a reference semantics (closures capture by value, as eval.rs does), compared with the real evaluator's "
+             "output and outcome kind on every generated program. No known findings.",
         design="§7 C19"),
     "C22": dict(
         category="translation_validation",
-        technique="exact Lean model of apply_fixes proved equal to simultaneous substitution for disjoint fixes + per-input validation of the real fix lists + parse/run/fixpoint oracle",
+        technique="exact Lean model of apply_fixes (both the original and the repaired, overlap-skipping variant) proved equal to simultaneous substitution for disjoint fixes + whole-program soundness theorems for two fix schemas with per-input validation of the relations + parse/run/fixpoint oracle",
         text="Proved: for pairwise-disjoint in-bounds fixes in any order apply_fixes is the simultaneous substitution and does not "
-             "panic (apply_fixes_disjoint); local schema soundness of four fix shapes (unused literal / string statement, "
-             "unnecessary let, repeated bool). Per input (~300 lint-triggering programs per quick run): the real fix lists (hook "
-             "op) are checked for disjointness and range coverage, the model's output must equal `check --fix --stdout`, the fixed "
-             "program must parse, print and end like the original, and --fix must reach a fixed point in <= 3 rounds.",
-        note=TB + "Schema lemmas are local (not lifted through arbitrary contexts). Seven narrow known findings (overlapping "
-             "duplicate fixes incl. a --fix panic, effectful unused value removed, a repeated-bool fix that does not parse, an "
-             "unused let that is used by a return, a fix pair that flips forever).",
+             "panic (apply_fixes_disjoint; apply_fixes_skip_disjoint for the repaired variant that skips a fix overlapping an "
+             "applied one). WHOLE-PROGRAM schema theorems on RefSem (closure-free restriction, all fuel): removing any set of "
+             "int / string literal statements that are not last in their sequence preserves the run exactly — result, store, "
+             "output (unused_literal_fix_sound_partial, by a dedicated pair of simulations); replacing `x op d` by `x`, x a "
+             "call-free pure chain of a strict && / || and d one of its operands, anywhere in the program preserves the run "
+             "unless the original ends with a type error (repeated_bool_fix_sound_partial, lifted through contexts by "
+             "C21.eval_congr_partial). Local only: `let x = e; x` -> `e` (unnecessary_let_sound: value and output; the store "
+             "gains a cell, so the whole-program lift needs a simulation up to store injection, not proved). Per input (~300 "
+             "lint-triggering programs per quick run): the model's output must equal `check --fix --stdout`; the driver evaluates "
+             "the two schema relations on (original, program after only those fixes) from the real parser (litfix_check, "
+             "rbfix_check); the fixed program must parse, print and end like the original; repeating --fix must not cycle and "
+             "must reach a fixed point within 12 rounds. Failures are classified into a closed key set (oracle kind x lint).",
+        note=TB + "Five narrow known findings, all genuine lint defects: an unused list / tuple literal with effectful items is "
+             "deleted; the repeated-operand fix leaves a stray `)` for a parenthesised duplicate; it removes a duplicate although an "
+             "operand in between assigns the variable (found from the purity hypothesis of the theorem); an unused-variable fix "
+             "hits a same-named used `let` of another function; the `*` / `*.` operator fix flips forever. Fixed in /repo: "
+             "whole-line deletion (97f74b0), overlapping fixes incl. the --fix panic (523feb0). Closures and the loop-body-last "
+             "literal are outside the schema theorems (covered by the oracle).",
         design="§7 C22"),
     "C26": dict(
         category="proof",
@@ -405,20 +435,28 @@ CLAIMED = {
 
     "C01": dict(
         category="proof",
-        technique="Lean 4 proof of lexer totality over the lexer model M1 (tables tied to the source by decide) + partial parser progress lemmas over the parser model M2 + lexer/parser correspondence + crash oracle over nine text streams",
+        technique="Lean 4 proof of lexer totality (model M1, tables tied to the source by decide) and of panic-freedom of the whole parser model M2 composed with the lexer model (lex_parse_no_panic, for every fuel) + lexer/parser correspondence + crash oracle over eleven text streams",
         text="Proved for every source text: the lexer never panics and terminates with fuel = length + 1 (lex_no_panic, "
              "lex_terminates, lex_between_total: the loop offset is always a character boundary and strictly increases), token "
              "texts are the source slices at their offsets (lex_tokens_cover); the lexer tables and regex sources in the model "
-             "equal the ones regenerated from lex.rs (decide). For the parser model: parse_symbol / require_token / "
-             "check_required_token never panic on a non-empty token list and move back by at most one token; the pinned-tree "
-             "panics are kept as witnesses. Every quick run feeds ~9k texts (raw characters incl. multi-byte and non-ASCII "
-             "whitespace, whole-token sequences, string/comment-dense texts, perturbed seed files, all seed files, EVERY "
-             "token-boundary prefix of seed and generated programs, exhaustive short strings and token sequences) through lex + "
-             "parse + check + format in-process and re-runs every crash through the CLI; the lexer model and the parser model "
-             "(on the real lexer's tokens: trees, diagnostic kinds, PANIC iff PANIC) are compared with the implementation.",
-        note=TB + "PARTIAL: parse_no_panic for the whole grammar is not proved (only the primitive steps); the type checker and "
-             "the formatter are not modelled: for them the crash oracle is the only evidence. Known finding: a few thousand "
-             "nested parentheses overflow the native stack.",
+             "equal the ones regenerated from lex.rs (decide). Proved for the parser model of the whole of parser.rs (items "
+             "loop, definitions, statements, expressions, patterns, type hints): for every fuel and every non-empty token "
+             "list satisfying LexLike (a float-looking token is a whole float; a symbol-like token sits on one line), no "
+             "panic site (progress assertions, expect/unwrap, unpop) is reached (parse_no_panic); the lexer model's output "
+             "always satisfies LexLike (lex_lexLike), hence lex_parse_no_panic : for all src and fuel, parseItems fuel (lex src) "
+             "is not a panic. The pinned-tree panics and the former struct-literal recursion are kept as decide-witnesses "
+             "under the model's `pinned` switch. Every quick run feeds ~12k texts (raw characters incl. multi-byte and "
+             "non-ASCII whitespace, whole-token sequences, string/comment-dense texts, perturbed seed files, all seed files, "
+             "EVERY token-boundary prefix of seed and generated programs, exhaustive short strings and token sequences, "
+             "keyword-at-line-start-before-brace contexts, the corpus of past crashes) through lex + parse + check + format "
+             "in-process and re-runs every crash through the CLI; the lexer model and the parser model (on the real lexer's "
+             "tokens: trees, diagnostic kinds, PANIC iff PANIC) are compared with the implementation, and LexLike is "
+             "re-checked on every real token stream.",
+        note=TB + "PARTIAL with respect to the statement (`finish without crashing`): the theorem is about panics: with too little fuel the model answers outOfFuel, so TERMINATION and native "
+             "stack depth of the real recursive-descent parser are decided by the oracle only (known finding: a few thousand "
+             "nested parentheses overflow the native stack). The type checker and the formatter are not modelled for this "
+             "property: for them the crash oracle is the only evidence. Twelve parser/lexer crashes or hangs found on the "
+             "pinned tree are fixed in /repo (known_findings.json `fixed`).",
         design="§7 C01"),
 
     "C07": dict(
@@ -437,16 +475,26 @@ CLAIMED = {
         design="§7 C07"),
     "C11": dict(
         category="proof",
-        technique="Lean 4 partial proof (definition monotonicity of the machine, lifted through dispatch, step and eval) over a session model + incremental-vs-batch transcripts",
-        text="Proved so far: an evaluation that ends with a value under program p ends with the same value, after the same steps, "
-             "in the same state, under any extension of p by function definitions with fresh names (dispatch_mono_partial, "
-             "step_mono, eval_mono_partial), instantiated for one `run` request (request_defs_upfront_partial). For the property "
-             "itself ~400 error-free histories per quick run (1..8 inputs mixing function/enum definitions, toplevel lets, "
-             "assignments, expressions, prints; each name defined once) are submitted incrementally and as one input through "
-             "reftest-json-session; the last values must be equal, and both replies are compared with the session model.",
-        note=TB + "PARTIAL: the main theorem incremental_eq_batch is not proved (missing: added enum definitions, the sequencing "
-             "half, gluing over the history). Known finding C11/trailing-for-not-run: a toplevel `for` as the last expression of "
-             "a request is left pending after its first iteration (the eval-up-to special case leaks into `run`).",
+        technique="Lean 4 proof by two simulations from a checked reference run (frame parametricity of the evaluator for all 21 node kinds + definition monotonicity, glued by induction over the history) over a session model + incremental-vs-batch transcripts",
+        text="Proved (C11.incremental_eq_batch_partial, incremental_eq_batch_state_partial), for histories of any length: if the function "
+             "names defined by the inputs are fresh when loaded (histOK, decidable) and the REFERENCE RUN of the history answers v "
+             "(Incr.canon: the incremental run with frame 0's value stack emptied at the start of every request, checked on the way: "
+             "no error/crash; every request comes to rest at the toplevel frame with nothing pending; in every request but the last no "
+             "toplevel return / loop-less break/continue and no contact with the node the concatenated run stops at — decidable by "
+             "running it), then the real incremental session answers v to its last request AND the concatenation of all inputs "
+             "submitted as one request answers v, and both sessions end with the same definitions and the same toplevel variables. "
+             "Core lemmas: Incr.dispatch_fx (a dispatch that does not crash on a frame does the same with further pending entries and "
+             "values BELOW the frame's own), Incr.step_diff / step_same, Incr.seg_diff / seg_same, C11.eval_mono_partial, "
+             "Incr.incremental_of_canon / batch_of_canon. For the property itself ~400 error-free histories per quick run (1..8 inputs "
+             "mixing function/enum definitions, toplevel lets, assignments, expressions, prints; each name defined once) are submitted "
+             "incrementally and as one input through reftest-json-session; the last values must be equal, and both replies are compared "
+             "with the session model.",
+        note=TB + "PARTIAL in two respects, both spelled out in Props/C11.lean: (1) enum definitions are allowed in the FIRST input only "
+             "(definition monotonicity for added enums needs the invariant that every enum value on the stacks has a defined type); "
+             "(2) the hypothesis is on the reference run, not on `incremental` itself: the two differ only below the values a request "
+             "pushes, and for programs with C02's value-stack discipline the reference run is error-free iff the incremental run is — "
+             "that link to C02's invariant is not made. Known finding C11/trailing-for-not-run: a toplevel `for` as the last "
+             "expression of a request is left pending after its first iteration (the eval-up-to special case leaks into `run`).",
         design="§7 C11"),
 
     "C20": dict(
